@@ -151,9 +151,8 @@ def replay_edit(ctx, path):
             op, a = ev["op"], ev["args"]
 
             def mk(c):
-                return build({"cls": c["cls"], "name": c["name"],
-                              "params": {k: unpwire(v) for k, v in c["pay"]["params"].items() if k != "type"},
-                              "limits": {k: [float(undec(x)) for x in v] for k, v in c["pay"]["limits"]} or None})
+                from rebuild import desc_of
+                return build(desc_of(c))
             if op == "new":
                 from sysloss.system import System
                 s = System("sys", mk(a["comp"]), rail=a["rail"], group=a["group"])
